@@ -85,6 +85,10 @@ Definition latest_states (t : list act) : list Z :=
   map (fun s => match s with a :: _ => if is_terminal a then 0 else latest_of s | [] => 0 end)
       (filter (fun s => match s with [a] => negb (is_terminal a) | a :: _ => true | [] => false end) (suffixes t)).
 
+Definition waiting_states (t : list act) : list Z :=
+  map (fun s => match s with a :: _ => if is_terminal a then 0 else waiting_of s | [] => 0 end)
+      (filter (fun s => match s with [a] => negb (is_terminal a) | a :: _ => true | [] => false end) (suffixes t)).
+
 (* ---------------- update_statistics ---------------- *)
 Fixpoint dist_from (loc : Z) (acts : list act) : Z :=
   match acts with [] => 0 | a :: r => dist loc (a_loc a) + dist_from (a_loc a) r end.
